@@ -143,13 +143,13 @@ theorem repaired_parser_reentrant (s : State String Brace PLoc) (sched : List Na
       alone and read-only afterwards. They are part of the initial state of the evaluating
       threads, not steps of them. -/
 def allowedObjectWrites : List ObjWrite := [
-  ⟨"ECALRuntimeProvider", "MutexeOwners", "interpreter.mutexRuntime.Eval", "assign+lock"⟩,
-  ⟨"ECALRuntimeProvider", "Mutexes", "interpreter.mutexRuntime.Eval", "assign+lock"⟩,
-  ⟨"assignmentRuntime", "leftSide", "interpreter.assignmentRuntime.Validate", "assign"⟩,
-  ⟨"baseRuntime", "validated", "interpreter.baseRuntime.Validate", "assign"⟩,
-  ⟨"letRuntime", "declared", "interpreter.letRuntime.Validate", "assign"⟩,
-  ⟨"loopRuntime", "leftInVarName", "interpreter.loopRuntime.Validate", "assign"⟩,
-  ⟨"numberValueRuntime", "numValue", "interpreter.numberValueRuntime.Validate", "assign"⟩]
+  ⟨"ECALRuntimeProvider", "MutexeOwners", "interpreter.mutexRuntime.Eval", "assign+lock", "run"⟩,
+  ⟨"ECALRuntimeProvider", "Mutexes", "interpreter.mutexRuntime.Eval", "assign+lock", "run"⟩,
+  ⟨"assignmentRuntime", "leftSide", "interpreter.assignmentRuntime.Validate", "assign", "validate"⟩,
+  ⟨"baseRuntime", "validated", "interpreter.baseRuntime.Validate", "assign", "validate"⟩,
+  ⟨"letRuntime", "declared", "interpreter.letRuntime.Validate", "assign", "validate"⟩,
+  ⟨"loopRuntime", "leftInVarName", "interpreter.loopRuntime.Validate", "assign", "validate"⟩,
+  ⟨"numberValueRuntime", "numValue", "interpreter.numberValueRuntime.Validate", "assign", "validate"⟩]
 
 /-- **Generated side obligation**: every write to a field of a shared object found in the source
     is a `sync/atomic` update or one of the justified entries. -/
@@ -199,8 +199,8 @@ theorem nonatomic_ids_collide :
 
 /-- the obligation rejects the writes of such variants: a counter field of the provider
     incremented in the constructor, a lazily filled cache map in an `Eval` method -/
-example : ¬ (∀ w ∈ [ObjWrite.mk "ECALRuntimeProvider" "instanceCounter" "interpreter.newBaseRuntime" "incdec",
-                     ObjWrite.mk "stringValueRuntime" "interpolations" "interpreter.stringValueRuntime.interpolationAST" "assign"],
+example : ¬ (∀ w ∈ [ObjWrite.mk "ECALRuntimeProvider" "instanceCounter" "interpreter.newBaseRuntime" "incdec" "run",
+                     ObjWrite.mk "stringValueRuntime" "interpolations" "interpreter.stringValueRuntime.interpolationAST" "assign" "run"],
               w.kind = "atomic" ∨ w ∈ allowedObjectWrites) := by decide
 
 /-! ### Negative witnesses: the code before the repair (`parserSys false`) -/
